@@ -249,6 +249,31 @@ def gen_queue_full(rng, exe):
     return g.finish(), True
 
 
+def gen_long_ring(rng, exe):
+    """C01: a target first confirms some tasks (the sender's id table advances), then falls more than the table's
+    initial capacity (1024) behind, so the table grows while wrapped, then confirms a watermark in the middle."""
+    g = Gen(rng, exe, 1, 2, stalls=False)
+    g.connect(0)
+    g.connect(1)
+    for _ in range(rng.range(12, 40)):
+        g.batch(0, force_targets=[1], ntasks=rng.range(4, 9))
+        g.ack(1, "prompt")
+    for k in range(rng.range(150, 170)):
+        g.batch(0, force_targets=[1], ntasks=8)
+        if k % 40 == 7:
+            g.batch(0, force_targets=[0], ntasks=1)
+            g.ack(0, "prompt")
+    hi = g.last_high[1]
+    for w in (hi - rng.range(850, 1000), hi - rng.range(300, 800), hi - rng.range(1, 200)):
+        if w > g.acked[1]:
+            g.acked[1] = w
+            g.emit("A 1 %d" % w)
+        g.ack(0, "prompt")
+    g.incomplete = False
+    g.completion_rounds()
+    return g.finish(), True
+
+
 def gen_history(rng, exe, nev, faults=False, liveness=False, unroutable=False, stalls=True, big=False):
     ns = rng.range(1, 3 if big else 2)
     nt = rng.range(1, 4 if big else 3)
